@@ -17,7 +17,8 @@ pub mod stdx {
 
   pub mod sync {
     pub use crate::facade::{
-      Condvar, Mutex, MutexGuard, RwLock, RwLockReadGuard, RwLockWriteGuard, WaitTimeoutResult,
+      Barrier, BarrierWaitResult, Condvar, Mutex, MutexGuard, Once, OnceLock, RwLock, RwLockReadGuard, RwLockWriteGuard,
+      WaitTimeoutResult,
     };
     pub use std::sync::*;
     pub use crate::facade::atomic;
